@@ -14,6 +14,8 @@ Extracted syntactically (brace matching on the Rust text with comments and strin
   * to which command handlers the flag is handed (`interrupted` mentioned inside an arm of the command match);
   * interrupt.rs: activate() stores true, Drop stores false, confirmation_prompt_active() loads; the call sites of
     `ConfirmationPromptGuard::activate` in renamify-core and renamify-cli;
+  * every closure handed to `signal_hook::low_level::register` runs in real signal context: the calls in it that are not
+    async-signal-safe (anything but atomic store / swap / load / fetch_*; macros such as eprintln! included) are counted;
   * lock.rs: acquire registers the path in HELD_LOCKS and release_held_locks removes the registered files; both it and
     LockFile::drop unlink only inside `if owns_lock_file(..)` (content still `pid:timestamp` of this process).
 Raises if main.rs / interrupt.rs do not have the expected shape (broken tie)."""
@@ -83,6 +85,37 @@ def analyse_handler(text, a, b, what):
             "releases": releases, "others": sorted(set(others))}
 
 
+SIGNAL_SAFE = {"store", "swap", "load", "fetch_add", "fetch_sub", "fetch_or", "fetch_and", "compare_exchange"}
+
+
+def signal_context_closures(main):
+    """every closure handed to `signal_hook::low_level::register(..)`: it runs in real signal context (possibly inside the
+    interrupted thread's own `eprintln!` or allocator), so only async-signal-safe work is allowed in it: atomic store / swap /
+    load / fetch_*.  Returns a list of {signal, unsafe: [names]} — macros (eprintln!, println!, format!, …), process::exit,
+    lock release, allocation, any other call are all reported."""
+    out = []
+    for m in re.finditer(r"signal_hook::low_level::register\s*\(\s*([\w:]+)\s*,", main):
+        mm = re.compile(r"(?:move\s*)?\|\|\s*\{").search(main, m.end())
+        if not mm or mm.start() - m.end() > 200:
+            raise Shape("low_level::register: the handler is not an inline closure (cannot inspect a signal-context handler)")
+        a = mm.end() - 1
+        body = main[a + 1:match_brace(main, a)]
+        bad = []
+        for c in re.finditer(r"([A-Za-z_][\w:]*)\s*(!?)\s*\(", body):
+            name = c.group(1).split("::")[-1]
+            if name in ("if", "while", "match", "for", "return", "move"):
+                continue
+            if c.group(2) == "!" or name not in SIGNAL_SAFE:
+                bad.append(c.group(1) + c.group(2))
+        for kw in re.findall(r"\b(Box::new|String::from|vec!|format!|to_string|to_owned)\b", body):
+            if kw not in bad:
+                bad.append(kw)
+        out.append({"signal": m.group(1).split("::")[-1], "unsafe": bad,
+                    "stores_flag": bool(re.search(r"\.\s*(store|swap)\s*\(\s*true\b", body))})
+    others = len(re.findall(r"signal_hook::(?:flag|iterator|low_level::pipe)", main))
+    return out, others
+
+
 def opt(v):
     return "none" if v is None else f"(some {v})"
 
@@ -104,6 +137,7 @@ def extract():
     sigint = analyse_handler(main, a, b, "SIGINT handler")
     a2, b2 = closure_body(main, r"signal_hook::low_level::register\s*\(\s*signal_hook::consts::SIGTERM\s*,", "SIGTERM handler")
     sigterm = analyse_handler(main, a2, b2, "SIGTERM handler")
+    sigctx, sigctx_other = signal_context_closures(main)
     extra_handlers = len(re.findall(r"set_handler\s*\(|low_level::register\s*\(|signal_hook::flag::register|sigaction\s*\(", main)) - 2
 
     r0 = re.search(r"let\s+result\s*=\s*match\s+cli\s*\.\s*command\s*\{", main)
@@ -213,7 +247,8 @@ def extract():
                   and bool(re.search(r"==", ob)))
     return {"sigint": sigint, "sigterm": sigterm, "extra_handlers": extra_handlers, "scope": scope,
             "code": code, "err_codes": err_codes, "passed": passed,
-            "guard_ok": guard_ok, "users": sorted(users), "held_ok": held_ok, "own_ok": own_ok}
+            "guard_ok": guard_ok, "users": sorted(users), "held_ok": held_ok, "own_ok": own_ok,
+            "sigctx": sigctx, "sigctx_other": sigctx_other}
 
 
 def render(f):
@@ -239,7 +274,15 @@ def render(f):
            "  deriving DecidableEq, Repr", ""]
     out += handler("sigint", f["sigint"])
     out += handler("sigterm", f["sigterm"])
-    out += ["/-- handler registrations in `main` beyond the two above -/",
+    out += ["/-- closures registered with `signal_hook::low_level::register`: they run in REAL SIGNAL CONTEXT (the ctrlc handler runs",
+            "    on ctrlc's own thread and is not one of them) -/",
+            f"def signalContextHandlers : Nat := {len(f['sigctx'])}", "",
+            "/-- calls in those closures that are not async-signal-safe (anything but atomic store / swap / load / fetch_*):",
+            "    " + ("; ".join(f"{h['signal']}: {', '.join(h['unsafe']) or 'none'}" for h in f["sigctx"]) or "no such closure") + " -/",
+            f"def signalContextUnsafeCalls : Nat := {sum(len(h['unsafe']) for h in f['sigctx'])}", "",
+            "/-- every such closure stores `true` to the flag -/",
+            f"def signalContextHandlersStoreFlag : Bool := {str(all(h['stores_flag'] for h in f['sigctx']) and bool(f['sigctx'])).lower()}", "",
+            "/-- handler registrations in `main` beyond the two above -/",
             f"def extraHandlers : Nat := {f['extra_handlers']}", "",
             "/-- where the interrupted flag decides the status, after `let result = match cli.command {..};`:",
             "    all    = `if interrupted.load(..) { exit(c) }` before `match result` (c wins over the command's own status)",
